@@ -132,6 +132,9 @@ func crashAlphabet(single bool) []crashOp {
 		{kind: "copy", b: "aaa", k: "k", b2: "aaa", k2: "d/x"},
 		{kind: "delete", b: "aaa", k: "k"},
 		{kind: "multi", b: "aaa"},
+		// a key two directories deep: a kill may leave nested empty directories behind
+		{kind: "put", b: "aaa", k: "n/m/x", body: "N"},
+		{kind: "delete", b: "aaa", k: "n/m/x"},
 	}
 	if !single {
 		ops = append(ops, crashOp{kind: "create", b: "bbb"}, crashOp{kind: "delbucket", b: "aaa"}, crashOp{kind: "copy", b: "aaa", k: "k", b2: "bbb", k2: "k"})
